@@ -3,21 +3,14 @@
     exhaustive strategy (proof/C06_All.v, read-only) under its VF2 contract. *)
 From Coq Require Import List NArith ZArith Bool Arith Lia Permutation SetoidList.
 From SK Require Import lib.Tok lib.LGraph lib.Mono model.C06_Model lib.C06_Spec proof.C06_All.
-From SK Require Import model.C03_Model model.C04_Model proof.C03_Proof proof.C04_Glue proof.C04_Template proof.C04_Proof.
+From SK Require Import model.C03_Model model.C04_Model model.C04_Reactor proof.C03_Proof proof.C04_Glue proof.C04_Template proof.C04_Proof.
 Import ListNotations.
 Local Open Scope Z_scope.
 
-(** node_attrs = ["element", "charge"] and edge_attrs = ["order"] as the reactor passes them; any injective coding of
-    charges / orders into N would do *)
-Definition chcode (z : Z) : N := match z with Z0 => 0%N | Zpos p => Npos (xO p) | Zneg p => Npos (xI p) end.
+(** [chcode] / [tr_edges] / [tr_host] / [tr_pat]: model/C04_Reactor.v (node_attrs = ["element", "charge"], edge_attrs = ["order"] as the
+    reactor passes them; any injective coding of charges / orders into N would do) *)
 Lemma chcode_inj a b : chcode a = chcode b -> a = b.
 Proof. destruct a, b; simpl; intros E; try discriminate; try reflexivity; inversion E; reflexivity. Qed.
-
-Definition tr_edges (es : list (N * N * Z)) : list (N * N * C06_Model.elab) := map (fun e => let '(u, v, o) := e in (u, v, [Z.to_N o])) es.
-Definition tr_host (g : hostg) : C06_Model.graph :=
-  LG (map (fun p => (fst p, ([a_el (snd p); chcode (a_ch (snd p))], Z.to_N (a_hc (snd p))))) (gnodes g)) (tr_edges (gedges g)).
-Definition tr_pat (g : molg) : C06_Model.graph :=
-  LG (map (fun p => (fst p, ([m_el (snd p); chcode (m_ch (snd p))], Z.to_N (m_hc (snd p))))) (gnodes g)) (tr_edges (gedges g)).
 
 Lemma leqb_refl l : leqb l l = true.
 Proof. induction l as [|x r IH]; simpl; [reflexivity|]. rewrite N.eqb_refl. exact IH. Qed.
